@@ -345,16 +345,15 @@ def fault_retry(case):
     after = [["isel", ["i", L - 1], None], ["isel", ["s", None, None, None], None], ["isel", ["i", 1 % L], ["i", 0]], ["isel", ["s", None, None, -1], None]]
     for w in warm:
         for v in victims:
-            for k in range(1, 4):  # the k-th read event of the victim load fails
-                prod2, da2, twin2, _, _, _ = prod, da, twin, None, None, None
+            for k, m in [(k, m) for k in range(1, 4) for m in (1, 2, 3, 5)]:  # read events k .. k+m-1 of the victim load fail
                 try:
                     outcome_of(da, [w])  # a successful load first (state from an earlier read)
                     count = [0]
 
-                    def hook(ev, k=k, count=count):
+                    def hook(ev, k=k, m=m, count=count):
                         if ev[0] == "read" and ev[1].endswith("/" + fname):
                             count[0] += 1
-                            if count[0] == k:
+                            if k <= count[0] < k + m:
                                 raise InjectedFault("injected transient read error")
 
                     vfs.HOOK[0] = hook
@@ -364,7 +363,12 @@ def fault_retry(case):
                         vfs.HOOK[0] = None
                     injected = count[0] >= k
                     if injected and r[0] != "raise":
-                        fails.append({"sig": {"kind": "fault-swallowed"}, "detail": f"{tc} {L}x{P} rpc={rpc}: read error during {v} was swallowed, result {r[1]['shape']}", "case": case})
+                        # the library may retry a failed read; what it then returns must be the right data
+                        want = outcome_of(twin, [v])
+                        if want[0] != "value" or r[1]["bytes"] != want[1]["bytes"] or r[1]["loaded_shape"] != want[1]["loaded_shape"]:
+                            sig = {"kind": "fault-swallowed-wrong-result"}
+                            if core.jkey(sig) not in {core.jkey(f["sig"]) for f in fails}:
+                                fails.append({"sig": sig, "detail": f"{tc} {L}x{P} rpc={rpc}: {m} consecutive read errors from read #{k} of {v} (after {w}) were swallowed and the result is wrong (shape {r[1]['loaded_shape']})", "case": case})
                     for a in [v] + after:
                         n += 1
                         status, detail, extra = compare(da, twin, [a], ref)
@@ -438,7 +442,7 @@ def run(res, tier, seed):
         "depth 1: full per-axis alphabet (ints, slices with bounds None|-n-1..n+1 and steps None|+-1|+-2|+-3, int arrays len<=2 + [],"
         " all boolean masks) on rows x (all | 8 representative) column expressions, columns alone with the full alphabet,"
         " getitem/sel spellings and pointwise pairs; 11..16-line images with strides up to +-7 against line groups of 2..8; depth 2-3: BFS over chains of single-axis steps, state = effective"
-        " selection (dims, shape, selected values of a position-coded twin); fault-retry: a transient read error injected at the 1st/2nd/3rd"
+        " selection (dims, shape, selected values of a position-coded twin); fault-retry: 1, 2, 3 or 5 consecutive read errors injected from the 1st/2nd/3rd"
         " read of a load (after an earlier successful load), then the same and other selections must still equal the twin. A batch is non-trivial if at least one"
         " expression is accepted by the in-memory twin (out-of-bounds expressions must raise on both sides)."
     )
